@@ -11,6 +11,9 @@ RULE = ("api: fixed Unicode strings (empty, ASCII, delimiters ( ) \\ balanced an
         "configurations (classic, xref-stream, classic with uncompressed streams); the string object is cut out of the written file and compared with the "
         "Gallina emitter, read by the ISO-shaped Gallina reader and by the library's own reader (PdfReader::metadata / object accessors + to_text). "
         "dec: every first byte x continuations, BOM + well-formed / odd-length / malformed UTF-16, random byte strings through PdfString::to_text. "
+        "apilong / declong: long texts (300..1100 UTF-16 units / bytes) with a surrogate pair whose high half is code unit k for every k in a window "
+        "around each block size 64, 128, 255, 256, 257, 512 (api) and also 768, 1000, 1024 (dec), astral-only texts (every even / odd boundary straddled), "
+        "lone surrogates and odd tails at block ends, long plain texts with delimiters at the boundary, long single-byte strings (FE FF in the middle, every byte value cyclically), seeded random long texts. "
         "non-trivial = text that is not plain (outside TAB, LF, printable ASCII) or contains a delimiter (api); payload of >= 2 bytes (dec); distinct by case text")
 
 
@@ -51,4 +54,4 @@ def run(r):
         r.extra_cov["translator"] = x
     except Exception as e:
         r.proof_broken.append("translator gen_encodings: %s" % e)
-    return standard(r, "c10", ["theories/C10/Proofs.vo"], ["theories/C10/Model.vo"], ["api", "dec"], classify=classify, pre=corpus)
+    return standard(r, "c10", ["theories/C10/Proofs.vo"], ["theories/C10/Model.vo"], ["api", "dec", "apilong", "declong"], classify=classify, pre=corpus)
